@@ -603,6 +603,12 @@ func (i *Install) replaceRelease(rel *release.Release) error {
 	releaseutil.Reverse(hist, releaseutil.SortByRevision)
 	last := hist[0]
 
+	// The name may have been taken since availableName looked (a concurrent install or upgrade):
+	// only an uninstalled or failed release may be replaced.
+	if st := last.Info.Status; st != release.StatusUninstalled && st != release.StatusFailed {
+		return errors.New("cannot reuse a name that is still in use")
+	}
+
 	// Update version to the next available
 	rel.Version = last.Version + 1
 
